@@ -177,7 +177,7 @@ type family struct {
 	Target string // "sqli" | "xss"
 }
 
-func timingFamilies(thorough bool) []family {
+func timingFamilies(_ bool) []family {
 	var fams []family
 	sq := func(name, pre, unit, suf string) { fams = append(fams, family{name, pre, unit, suf, "sqli"}) }
 	xs := func(name, pre, unit, suf string) { fams = append(fams, family{name, pre, unit, suf, "xss"}) }
@@ -250,18 +250,14 @@ func timingFamilies(thorough bool) []family {
 	xs("comment-pairs", "", "<!---->", "")
 	xs("cdata-pairs", "", "<![CDATA[]]>", "")
 	xs("junk-url", "<a href=\"", "\x01", "javascript:\">")
-	if !thorough {
-		// the quick tier measures a representative subset
-		keep := map[string]bool{"escaped-quotes": true, "doubled-quotes": true, "escaped-quotes-virtual": true, "dollar-tags": true, "comment-openers": true, "at-signs": true,
-			"backticks": true, "brackets": true, "dot-keyword-split": true, "q-string-decoys": true, "or-chain": true, "mixed-quotes": true, "dashes": true, "parens": true,
-			"lt": true, "slashes": true, "dash-nul": true, "percent": true, "rbracket": true, "amp-hash": true, "attr-runs": true, "open-tags": true, "lt-bang": true, "quotes": true}
-		var q []family
-		for _, f := range fams {
-			if keep[f.Name] {
-				q = append(q, f)
-			}
-		}
-		return q
+	// closed constructs repeated: every opener is re-entered once per repetition
+	for _, u := range []string{"'a' ", "\"a\" ", "`a` ", "/*a*/", "/*a*/ ", "$$a$$ ", "$t$a$t$ ", "[a] ", "q'(a)' ", "x'0F' ", "b'01' ", "n'a' ", "u&'a' ", "@`a` ", "@'a' ",
+		"--a\n", "#a\n", "1e1 ", "0x1F ", "a.b ", "(1)", "{a}", "a`b ", "'a''b' ", "'a\\'b' ", "select 1;", "1 union select ", "a=b or "} {
+		sq("closed:"+strings.TrimSpace(u), "", u, "")
+	}
+	for _, u := range []string{"<!a>", "<!--a-->", "<!--a--!>", "<?a>", "<%a%>", "<![CDATA[a]]>", "<!doctype a>", "</a>", "</>", "</ a>", "<a>", "<a/>", "<a b='c'>", "<a b=\"c\">", "<a b=`c`>",
+		"<a b=c>", "<a b>", "<a b=c d=e>", "<a/b/c>", "a<b", "<a href='&#106;'>", "<!-->", "<!--->", "<%%>", "<a\x00>", "' b='c", "\" b=\"c", "` b=`c", "b=c "} {
+		xs("closed:"+u, "", u, "")
 	}
 	return fams
 }
@@ -319,6 +315,10 @@ func cmdTiming(args []string) {
 	fs.StringVar(&out, "out", "", "")
 	fs.Parse(args)
 	fams := timingFamilies(tier == "thorough")
+	nCap := 128 << 10
+	if tier == "thorough" {
+		nCap = 1 << 20
+	}
 	rep := newReport("C09", "for each adversarial family g: min-of-5 wall time of the detector at n, 4n, 16n with n raised until time(n) >= 1 ms (cap 256 kB); violation when both ratios exceed 8 on two consecutive measurements or the cost exceeds 2 us/byte at 16n; non-trivial = every family")
 	var rows []timingRow
 	measure := func(f family) timingRow {
@@ -326,7 +326,7 @@ func cmdTiming(args []string) {
 		var t1 time.Duration
 		for {
 			t1 = minTime(f, f.build(n), 3)
-			if t1 >= time.Millisecond || n >= 256<<10 {
+			if t1 >= time.Millisecond || n >= nCap {
 				break
 			}
 			n *= 2
